@@ -64,6 +64,8 @@ DELIVERABLES, written under {wt}/_out/ :
   - NOTES.md : per change, under a heading "## Change 1" / "## Change 2": what was changed, why it breaks the property, what specific circumstance is needed to manifest; then a line `PLACE: <relative path where the demo file must be copied, e.g. sdf/zz_demo1_test.go>` and a line `RUN: <exact go test command>`; then what you observed with and without the change.
 When finished, leave the worktree CLEAN of your source edits (`git -C {wt} checkout -- .`, remove demo files you placed in package directories; keep only _out/). Verify before finishing, for each change separately from a clean tree: apply diff -> build ok -> existing tests ok -> demo fails; revert -> demo passes.
 
+If, while exploring, you find that the UNMODIFIED tree already violates the property for some input, add a section "## Side observation (unmodified tree)" to NOTES.md with the exact reproducing input and what you observed (keep your two changes independent of it).
+
 Your final message: a 5-10 line summary (file/function edited, one-line description, demo command per change). Do not paste the diffs.
 """
     else:
